@@ -267,6 +267,25 @@ pub fn main_entry() {
         }
     }
 
+    // last-resort watchdog: a case that never returns (an endless loop outside anything the node
+    // watchdog counts) ends the run as INCONCLUSIVE with the case saved — never as a violation,
+    // never as a hang
+    {
+        let id = id.clone();
+        let limit: u64 = std::env::var("VERIF_CASE_TIMEOUT").ok().and_then(|s| s.parse().ok()).unwrap_or(1500);
+        std::thread::spawn(move || loop {
+            std::thread::sleep(std::time::Duration::from_secs(2));
+            let stuck = runner::IN_FLIGHT.lock().ok().and_then(|g| g.iter().find(|e| e.3.elapsed().as_secs() > limit).map(|e| (e.1.clone(), e.2.clone())));
+            if let Some((part, bytes)) = stuck {
+                let dir = format!("{}/work/replay", out_dir());
+                let _ = std::fs::create_dir_all(&dir);
+                let path = format!("{}/{}-stuck-{}.json", dir, id, part.replace('#', "-"));
+                let _ = std::fs::write(&path, serde_json::to_string_pretty(&json!({"property": id, "part": part, "signature": "harness-case-did-not-return", "bytes_hex": runner::hex(&bytes), "case": {"note": "the case was still running when the watchdog fired"}})).unwrap());
+                out!("INCONCLUSIVE: a case of part '{}' did not return within {} s; saved as {}", part, limit, path);
+                std::process::exit(2);
+            }
+        });
+    }
     let mut run = props::run(&id, tier, seed, &known);
     let wall = t0.elapsed().as_secs_f64();
 
